@@ -747,3 +747,51 @@ def c14(tier, seed):
                            "user_sched_pushed_to_other_pool"]
     c.required_points = ["UNITMAP_REUSE_TOMBSTONE", "UNITMAP_APPEND", "UNITMAP_LONG_CHAIN"]
     return c
+
+
+@prop("C02")
+def c02(tier, seed):
+    c = Check("C02", tier, seed)
+    q = tier == "quick"
+    c.rule = ("each case = one scenario: 1-4 streams sharing 1-2 pools (fifo/fifo_wait/randws x basic/prio/default/basic_wait/"
+              "randws, main-scheduler replacement by a running ULT in half of them), 3-14 initial workers plus workers made by "
+              "create/create_to/revive_to, each with a stack from the memory pool, from malloc (non-default size) or supplied by "
+              "the user (address 8-byte aligned only, size any multiple of 8, 512-byte guard zones); --ops random operations "
+              "drawn from yield, yield_to, thread_yield_to (single stream), create_to, revive_to, self_suspend, suspend_to, "
+              "resume, resume_yield_to, resume_suspend_to, exit_to, resume_exit_to, join of a child, contended mutex, "
+              "set_main_sched; every switching call runs through an assembly wrapper holding canaries in rbx, rbp (not under "
+              "ASan), r12-r15 and is made at a random extra stack depth; after each resume the worker checks registers, its "
+              "own MXCSR control bits and x87 control word (15 non-default combinations), stack patterns in the switching "
+              "frame, outer frames and its outermost frame, a heap step counter (stale resume) and a running-on flag; at start "
+              "it checks 16-byte alignment, that its locals lie inside the stack its attributes report and that no live "
+              "worker's stack overlaps; guard zones of user stacks are checked when the unit is freed; the library-side "
+              "occupancy monitor fails the run when any stream switches to a context that is still running or not yet "
+              "completely saved; distinct = distinct (variant, delay, scenario signature)")
+    c.assumptions = ["the occupancy flag of the old context of a plain (callback-less) switch is cleared before the switch: "
+                     "such a context (a scheduler waiting for its child) is only ever resumed by the same stream",
+                     "rbp is not used as a canary under ASan (its unwinder walks frame pointers)"]
+    profiles = [hammer("CTX_BEFORE_SWITCH", "YIELD_SAVED", "SUSPEND_BEFORE_BLOCKED", "SUSPEND_AFTER_BLOCKED"), "uniform", "off",
+                hammer("CTX_BEFORE_SWITCH", "PUSH_BEFORE_LOCK", "POP_NONEMPTY_SEEN", "RESUME_AFTER_PUSH", "JOIN_AFTER_REQ",
+                       "GET_JOINER_BEFORE_REQ", "TERMINATE_BEFORE_STORE"), "heavy"]
+    for i, s in enumerate(seeds(seed, 8 if q else 64)):
+        args = ["--seed", s, "--scenarios", 8 if q else 50, "--ops", 3000 if q else 6000, "--delay", profiles[i % 5],
+                "--watchdog", 90 if q else 900]
+        if i % 4 == 3:
+            args += ["--squeeze", 2]
+        c.add(Run("h_ctx", "mon", args, weight=5, tag="ctx%d" % i))
+    for i, s in enumerate(seeds(seed, 2 if q else 8, salt=1)):
+        c.add(Run("h_ctx", "asan", ["--seed", s, "--scenarios", 3 if q else 10, "--ops", 1500, "--delay", profiles[i % 5],
+                                    "--watchdog", 120], weight=5, tag="asan%d" % i))
+    for i, s in enumerate(seeds(seed, 2 if q else 8, salt=2)):
+        c.add(Run("h_ctx", "tsan", ["--seed", s, "--scenarios", 2 if q else 6, "--ops", 1000, "--delay", profiles[i % 5],
+                                    "--watchdog", 120], weight=5, tag="tsan%d" % i))
+    c.nontrivial = lambda r: (r.result or {}).get("counters", {}).get("switches_checked", 0) >= 100
+    c.required_counters = ["switches_checked", "resumed_on_another_stream", "switch_target_never_started",
+                           "switch_target_already_started", "user_stack_top_not_16_aligned", "stack_mempool", "stack_malloc",
+                           "stack_user"] + ["op_" + n for n in (
+                               "yield", "yield_to", "thread_yield_to", "create_to", "revive_to", "self_suspend", "suspend_to",
+                               "resume", "resume_yield_to", "resume_suspend_to", "exit_to", "resume_exit_to", "join_child",
+                               "mutex", "set_main_sched", "create")]
+    c.required_points = ["CTX_SWITCH", "CTX_START_SWITCH", "CTX_SWITCH_CALL", "CTX_START_SWITCH_CALL", "CTX_JUMP_CALL",
+                         "CTX_START_JUMP_CALL", "CTX_BEFORE_SWITCH", "EXIT_JUMP_TO_JOINER", "JOIN_SUSPEND"]
+    return c
